@@ -7,10 +7,12 @@
    and a timed transition model of what os/exec documents for
    CommandContext + WaitDelay (part (c); a model of the Go runtime and the OS,
    tied to reality only by the timing experiments of the harness).
+   and the loop of io.Copy over LimitWriter(&bytes.Buffer, cap) (the wiring of
+   execCommander.Output: how the cap on both streams turns into an executor error).
    Oracle inputs (outside /repo): what encoding/json makes of the captured
    stdout for the response type of the command (decodes? decoded metadata
    fields) and of the captured stderr for plugin.Error (decodes? code, message,
-   metadata map nil?). *)
+   metadata map: nil, or its entries sorted by key). *)
 From NV Require Import Base Generated.
 
 (* ================================================================== *)
@@ -74,6 +76,47 @@ Definition wscript (ws : list (Z * Z * bool)) : list (Z * (Z -> ureply)) :=
   map (fun x => let '(len, a, e) := x in (len, scripted a e)) ws.
 
 Definition model_w (i : winput) : list wres := lw_run (wi_limit i) (wscript (wi_writes i)).
+
+(* ================================================================== *)
+(* (b') the wiring of execCommander.Output: io.Copy from the pipe of   *)
+(*      the plugin into LimitWriter(&bytes.Buffer, cap)                *)
+(* ================================================================== *)
+
+(* bytes.Buffer.Write: takes everything it is offered, never fails *)
+Definition buffer_w : Z -> ureply := fun k => mk_ureply k false.
+
+Inductive cerr := CNil | CShort | CLimit | CUnder.   (* nil / io.ErrShortWrite / ErrLimitExceeded / W's error *)
+
+Record cres := mk_cres {
+  c_written : Z;       (* first result of io.Copy = bytes the buffer holds *)
+  c_err : cerr;        (* second result of io.Copy *)
+  c_left : Z;          (* l.N afterwards *)
+  c_reads : N }.       (* chunks io.Copy took from the pipe before it stopped *)
+
+(* io.Copy(dst, src), the documented loop of copyBuffer: every Read delivers a
+   chunk of nr > 0 bytes (the last one is followed by EOF);
+     nw, ew := dst.Write(buf[0:nr]); written += nw;
+     if ew != nil { err = ew; break }; if nr != nw { err = ErrShortWrite; break }
+   [dst] is the LimitedWriter with [remaining] bytes left over a bytes.Buffer. *)
+Fixpoint copy_loop (remaining written : Z) (reads : N) (chunks : list Z) : cres :=
+  match chunks with
+  | [] => mk_cres written CNil remaining reads                         (* EOF *)
+  | nr :: cs =>
+      let '(rem', r) := lw_write remaining nr buffer_w in
+      let written' := (written + w_n r)%Z in
+      match w_err r with
+      | WLimit => mk_cres written' CLimit rem' (reads + 1)
+      | WUnder => mk_cres written' CUnder rem' (reads + 1)
+      | WNil => if (w_n r =? nr)%Z then copy_loop rem' written' (reads + 1) cs
+                else mk_cres written' CShort rem' (reads + 1)
+      end
+  end.
+
+Record cinput := mk_cinput { ci_limit : Z; ci_chunks : list Z }.
+
+Definition model_c (i : cinput) : cres := copy_loop (ci_limit i) 0 0 (ci_chunks i).
+
+Definition zsum (l : list Z) : Z := fold_right Z.add 0%Z l.
 
 (* ================================================================== *)
 (* (c) timed transition model of exec.CommandContext(...).Run()        *)
@@ -162,7 +205,10 @@ Record meta := mk_meta {
 Inductive sout := SBad | SGood (m : meta).   (* m is meaningful for get-plugin-metadata only *)
 
 (* json.Unmarshal(stderr, &plugin.Error{}) on the captured stderr *)
-Inductive serr := ENotJson | EJson (code msg : string) (md_nil : bool).
+(* errorMetadata: None = nil map (absent or null), Some l = the map, sorted by key *)
+Inductive serr := ENotJson | EJson (code msg : string) (md : option amap).
+
+Definition is_none {A} (o : option A) : bool := match o with None => true | Some _ => false end.
 
 Definition contract_version : string := "1.0".     (* plugin.ContractVersion, framework constant *)
 Definition cap : N := gen_max_plugin_output.       (* maxPluginOutputSize, from the source *)
@@ -170,7 +216,9 @@ Definition plugin_wait_delay : N := 5000.          (* pluginWaitDelay = 5 s, in 
 
 Record pinput := mk_pinput {
   i_cmd : cmd;
-  i_name : string;           (* name given to NewCLIPlugin (file is notation-<name>) *)
+  i_name : string;           (* name given to NewCLIPlugin *)
+  i_base : string;           (* base name of the path given to NewCLIPlugin
+                                (CLIManager.Get and Install pass notation-<name>) *)
   i_file : fkind;
   i_exit : N;                (* exit code of the stub when it exits by itself *)
   i_sleep : N;               (* ms the stub stays alive after writing its output *)
@@ -184,7 +232,7 @@ Record pinput := mk_pinput {
 
 Inductive result :=
 | ROk
-| RReq (code msg : string)     (* proto.RequestError *)
+| RReq (code msg : string) (md : option amap)   (* proto.RequestError: Code, Err, Metadata *)
 | RExec                        (* *PluginExecutableFileError *)
 | RMalformed (why : N)         (* *PluginMalformedError: 0 stderr not a structured error,
                                   8 response does not decode, 1..7 metadata rule *)
@@ -211,10 +259,13 @@ Definition validate (m : meta) : N :=
 Definition stderr_result (e : serr) : result :=
   match e with
   | ENotJson => RMalformed 0
-  | EJson code msg md_nil =>
-      if String.eqb code "" && String.eqb msg "" && md_nil then RMalformed 0   (* "incomplete json" *)
-      else RReq code msg
+  | EJson code msg md =>
+      if String.eqb code "" && String.eqb msg "" && is_none md then RMalformed 0   (* "incomplete json" *)
+      else RReq code msg md                    (* RequestError{Code, Err: message, Metadata} *)
   end.
+
+(* plugin.BinaryPrefix + name (manager_unix.go binName) *)
+Definition bin_name (name : string) : string := "notation-" ++ name.
 
 Definition opt_time (o : option N) : time := match o with Some t => Fin t | None => Never end.
 
@@ -223,9 +274,21 @@ Definition host_of (i : pinput) : hostcfg :=
 Definition beh_of (i : pinput) : beh :=
   mk_beh (Fin (i_sleep i)) (match i_desc i with Some t => Fin t | None => Fin 0 end) 0.
 
+(* cmd.Start starts a process: the file can be executed and the context is not
+   already done when the call is made (Start returns ctx.Err() before forking) *)
+Definition ctx_done_at_call (i : pinput) : bool :=
+  match i_deadline i with Some 0%N => true | _ => false end.
+Definition started (i : pinput) : bool :=
+  match i_file i with FExec => negb (ctx_done_at_call i) | _ => false end.
+
+(* len(stderr) the host holds after the call: nothing when no process ran,
+   else what the copy into the LimitedWriter let through *)
+Definition captured_stderr (i : pinput) : N :=
+  if started i then N.min (i_stderr_len i) cap else 0.
+
 (* execCommander.Output returned err != nil *)
 Definition exec_failed (i : pinput) : bool :=
-  match i_file i with FExec => false | _ => true end
+  negb (started i)
   || killed (host_of i) (beh_of i)
   || negb (i_exit i =? 0)%N
   || (cap <? i_stdout_len i)%N           (* copy error of the stdout goroutine / SIGPIPE *)
@@ -235,7 +298,7 @@ Definition exec_failed (i : pinput) : bool :=
 (* func run(...) error, followed by the command-specific part *)
 Definition run_result (i : pinput) : result :=
   if exec_failed i then
-    if (N.min (i_stderr_len i) cap =? 0)%N then RExec       (* len(stderr) == 0 *)
+    if (captured_stderr i =? 0)%N then RExec                 (* len(stderr) == 0 *)
     else stderr_result (i_stderr i)
   else
     match i_stdout i with
@@ -252,35 +315,34 @@ Definition run_result (i : pinput) : result :=
 Definition model_p (i : pinput) : pobs :=
   match i_file i with
   | FMissing | FDir => mk_pobs RNew true None
-  | f =>
+  | _ =>
       mk_pobs (run_result i)
               (tle (t_return (host_of i) (beh_of i)) (Fin (i_bound i)))
-              (match f with
-               | FExec =>
-                   (* cmd.Start refuses to start the process under a context that is already done *)
-                   match i_deadline i with Some 0%N => None | _ => Some (cmd_arg (i_cmd i)) end
-               | _ => None
-               end)
+              (if started i then Some (cmd_arg (i_cmd i)) else None)
   end.
 
 (* ================================================================== *)
 (* cases                                                               *)
 (* ================================================================== *)
 
-Inductive input := IProc (i : pinput) | IWriter (i : winput).
-Inductive obs := OProc (o : pobs) | OWriter (o : list wres).
+Inductive input := IProc (i : pinput) | IWriter (i : winput) | ICopy (i : cinput).
+Inductive obs := OProc (o : pobs) | OWriter (o : list wres) | OCopy (o : cres) (buffered : Z).
 
 Definition model (i : input) : obs :=
   match i with
   | IProc p => OProc (model_p p)
   | IWriter w => OWriter (model_w w)
+  | ICopy c => let r := model_c c in OCopy r (c_written r)     (* buffer.Len() = bytes written *)
   end.
 
 (* ---------- boolean equalities ---------- *)
+Definition pair_eqb (a b : string * string) : bool :=
+  String.eqb (fst a) (fst b) && String.eqb (snd a) (snd b).
+Definition md_eqb (a b : option amap) : bool := opt_eqb (list_eqb pair_eqb) a b.
 Definition result_eqb (a b : result) : bool :=
   match a, b with
   | ROk, ROk | RExec, RExec | RName, RName | RNew, RNew | ROther, ROther => true
-  | RReq c m, RReq c' m' => String.eqb c c' && String.eqb m m'
+  | RReq c m d, RReq c' m' d' => String.eqb c c' && String.eqb m m' && md_eqb d d'
   | RMalformed k, RMalformed k' => (k =? k')%N
   | _, _ => false
   end.
@@ -295,10 +357,18 @@ Definition werr_eqb (a b : werr) : bool :=
 Definition wres_eqb (a b : wres) : bool :=
   (w_n a =? w_n b)%Z && werr_eqb (w_err a) (w_err b) && opt_eqb Z.eqb (w_offered a) (w_offered b).
 
+Definition cerr_eqb (a b : cerr) : bool :=
+  match a, b with CNil, CNil | CShort, CShort | CLimit, CLimit | CUnder, CUnder => true | _, _ => false end.
+
+Definition cres_eqb (a b : cres) : bool :=
+  (c_written a =? c_written b)%Z && cerr_eqb (c_err a) (c_err b) && (c_left a =? c_left b)%Z
+  && (c_reads a =? c_reads b)%N.
+
 Definition obs_eqb (a b : obs) : bool :=
   match a, b with
   | OProc x, OProc y => pobs_eqb x y
   | OWriter x, OWriter y => list_eqb wres_eqb x y
+  | OCopy x bx, OCopy y by_ => cres_eqb x y && (bx =? by_)%Z
   | _, _ => false
   end.
 
@@ -315,6 +385,7 @@ Definition meta_ok (name : string) (m : meta) : bool :=
 (* the process did not exit successfully (or never ran) *)
 Definition failing (i : pinput) : bool :=
   match i_file i with FExec => false | _ => true end
+  || ctx_done_at_call i
   || (match i_deadline i with Some d => (d <? i_sleep i)%N | None => false end)
   || negb (i_exit i =? 0)%N.
 
@@ -335,20 +406,32 @@ Definition error_kind_ok (i : pinput) (r : result) : bool :=
   if (N.min (i_stderr_len i) cap =? 0)%N then typed_error r
   else match i_stderr i with
        | ENotJson => typed_error r
-       | EJson code msg md_nil =>
-           if String.eqb code "" && String.eqb msg "" && md_nil
+       | EJson code msg md =>
+           if String.eqb code "" && String.eqb msg "" && is_none md
            then typed_error r
-           else match r with RReq c m => String.eqb c code && String.eqb m msg | _ => false end
+           else match r with
+                | RReq c m d => String.eqb c code && String.eqb m msg && md_eqb d md
+                | _ => false
+                end
        end.
 
+(* [p_argv o] is what the plugin process itself recorded: None = no process ran.
+   A process that ran was given the command of the call; a call whose process
+   never ran printed nothing, so its error is a typed one; a success needs a
+   process that ran. *)
 Definition spec_p (i : pinput) (o : pobs) : bool :=
   p_in_time o
+  && match p_argv o with Some a => String.eqb a (cmd_arg (i_cmd i)) | None => true end
   && match i_file i with
      | FMissing | FDir => match p_result o with ROk => false | _ => true end
      | _ =>
-         if failing i then error_kind_ok i (p_result o)
+         if failing i then
+           match p_argv o with
+           | None => typed_error (p_result o)
+           | Some _ => error_kind_ok i (p_result o)
+           end
          else match p_result o with
-              | ROk => success_allowed i
+              | ROk => success_allowed i && negb (is_none (p_argv o))
               | ROther => false
               | _ => true
               end
@@ -383,17 +466,27 @@ Definition spec_w (i : winput) (rs : list wres) : bool :=
   spec_w_aux (wi_limit i) (map (fun x => fst (fst x)) (wi_writes i)) rs
   && (accepted rs <=? Z.max 0 (wi_limit i))%Z.
 
+(* copy oracle: the buffer never holds more than the limit; the copy fails
+   exactly when the plugin printed more than the limit, and then the buffer
+   holds exactly the limit; otherwise it holds everything *)
+Definition spec_c (i : cinput) (r : cres) (buffered : Z) : bool :=
+  let total := zsum (ci_chunks i) in
+  let L := Z.max 0 (ci_limit i) in
+  (buffered <=? L)%Z && (buffered =? c_written r)%Z
+  && (if (L <? total)%Z then negb (cerr_eqb (c_err r) CNil) && (buffered =? L)%Z
+      else cerr_eqb (c_err r) CNil && (buffered =? total)%Z).
+
 Definition spec_ok (i : input) (o : obs) : bool :=
   match i, o with
   | IProc p, OProc q => spec_p p q
   | IWriter w, OWriter rs => spec_w w rs
+  | ICopy c, OCopy r b => spec_c c r b
   | _, _ => false
   end.
 
 (* ---------- the input contract ---------- *)
 (* process cases: the time bound handed to the harness is at least
-   min(context done, own exit) + WaitDelay, and the context is not done at the
-   very instant the process exits; writer cases: lengths are lengths *)
+   min(context done, own exit) + WaitDelay; writer cases: lengths are lengths *)
 Definition wf_p (i : pinput) : bool :=
   (match i_deadline i with
    | Some d => (N.min d (i_sleep i) + plugin_wait_delay <=? i_bound i)%N
@@ -403,8 +496,11 @@ Definition wf_p (i : pinput) : bool :=
 Definition wf_w (i : winput) : bool :=
   forallb (fun x => let '(len, a, _) := x in (0 <=? len)%Z && (0 <=? a)%Z) (wi_writes i).
 
+(* copy cases: io.Copy writes only what a Read delivered: nr > 0 *)
+Definition wf_c (i : cinput) : bool := forallb (fun nr => (0 <? nr)%Z) (ci_chunks i).
+
 Definition wf (i : input) : bool :=
-  match i with IProc p => wf_p p | IWriter w => wf_w w end.
+  match i with IProc p => wf_p p | IWriter w => wf_w w | ICopy c => wf_c c end.
 
 Record case := mk_case { c_id : N; c_in : input; c_obs : obs }.
 
